@@ -229,7 +229,33 @@ pub struct FnInfo {
     /// as leading parameters of the generated definition
     pub assoc_params: Vec<(String, Ty)>,
     pub params: Vec<(String, Ty)>,
+    /// parallel to `params`: the parameter is `&mut T` (its final value is part of the result)
+    pub mut_params: Vec<bool>,
     pub ret: Ty,
+    /// the body contains a loop (or calls a function that does): leading `fuel : nat` parameter, result in `option`
+    pub fuel: bool,
+}
+
+impl FnInfo {
+    pub fn has_mut_params(&self) -> bool {
+        self.mut_params.iter().any(|b| *b)
+    }
+    /// the components of the value the generated definition returns: new self, final values of `&mut` parameters, result
+    pub fn result_tys(&self) -> Vec<Ty> {
+        let mut v = vec![];
+        if self.self_kind == SelfKind::Mut {
+            v.push(Ty::Adt(self.self_ty.clone().unwrap()));
+        }
+        for ((_, t), m) in self.params.iter().zip(self.mut_params.iter()) {
+            if *m {
+                v.push(t.clone());
+            }
+        }
+        if self.ret != Ty::Unit {
+            v.push(self.ret.clone());
+        }
+        v
+    }
 }
 
 #[derive(Clone, Debug)]
@@ -291,6 +317,45 @@ impl Tables {
                 None => return Err(format!("generic type parameter `{}` has no `tyvar` mapping", p)),
             },
         })
+    }
+    /// the table entry a type name written in `cur_file` refers to.  Keys may carry a module qualifier
+    /// (`rectangle.Points`, `line.Points`) when two Rust types share an identifier.
+    pub fn resolve_name(&self, name: &str, cur_file: &str, self_ty: Option<&str>) -> Option<Ty> {
+        if self.adts.contains_key(name) {
+            return Some(Ty::Adt(name.to_string()));
+        }
+        if self.externs.contains_key(name) {
+            return Some(Ty::Extern(name.to_string()));
+        }
+        let suffix = format!(".{}", name.rsplit('.').next().unwrap());
+        if let Some(st) = self_ty {
+            if st.ends_with(&suffix) && self.adts.contains_key(st) {
+                return Some(Ty::Adt(st.to_string()));
+            }
+        }
+        if name.contains('.') {
+            return None;
+        }
+        let cands: Vec<&String> = self.adts.keys().filter(|k| k.ends_with(&suffix)).collect();
+        if cands.len() == 1 {
+            return Some(Ty::Adt(cands[0].clone()));
+        }
+        let dir = |f: &str| f.rsplit_once('/').map(|x| x.0.to_string()).unwrap_or_default();
+        let here = dir(cur_file);
+        let same: Vec<&&String> = cands
+            .iter()
+            .filter(|k| {
+                let origin = match &self.adts[**k] {
+                    Adt::Struct(s) => s.origin.clone(),
+                    Adt::Enum(e) => e.origin.clone(),
+                };
+                dir(origin.split(':').next().unwrap()) == here
+            })
+            .collect();
+        if same.len() == 1 {
+            return Some(Ty::Adt((**same[0]).clone()));
+        }
+        None
     }
     pub fn struct_info(&self, n: &str) -> Option<&StructInfo> {
         match self.adts.get(n) {
